@@ -38,8 +38,8 @@ type C05Op struct {
 	Match   string    `json:"match,omitempty"`
 	// ListFails (crash): the first that many listings of the restarted instance fail (each failed start-up listing
 	// costs the product's fixed one-second pause)
-	ListFails int `json:"list_fails,omitempty"`
-	Faults  []string  `json:"faults,omitempty"`
+	ListFails int      `json:"list_fails,omitempty"`
+	Faults    []string `json:"faults,omitempty"`
 	// Held (app): the transaction stays open - holding the LMDB write lock - until the instance's loop is
 	// stepped next, and commits 2 ms after the loop was let go
 	Held bool `json:"held,omitempty"`
@@ -68,11 +68,11 @@ type c05Fleet struct {
 	// appPuts: per instance, the keys (dbi/key) whose last application operation in the instance's current life
 	// (since its last restart with an emptied LMDB) was a put
 	appPuts [8]map[string]bool
-	c          C05Case
-	b          *fault.Bucket
-	nodes      []*Node
-	now        time.Time
-	logPos     int
+	c       C05Case
+	b       *fault.Bucket
+	nodes   []*Node
+	now     time.Time
+	logPos  int
 	// bucket replay
 	present map[string]bool
 	decoded map[string]map[string]map[string]Ver // blob -> dbi -> key -> version (nil if undecodable)
